@@ -115,7 +115,9 @@ Lits == {Lit(<<LInt("1"), LStr("a")>>), Lit(<<LStr("x"), LNone>>), Lit(<<LBool("
          Lit(<<LStr("1"), LInt("1")>>), Lit(<<LStr("null"), LNone>>), Lit(<<LStr("true"), LBool("True")>>),
          \* members that compare equal but are of different classes
          Lit(<<LInt("1"), LBool("True")>>), Lit(<<LInt("0"), LBool("False"), LStr("off")>>),
-         Lit(<<LStr("on"), LStr("off")>>)}
+         Lit(<<LStr("on"), LStr("off")>>),
+         \* ten members
+         Lit(<<LStr("c1"), LStr("c2"), LStr("c3"), LStr("c4"), LStr("c5"), LStr("c6"), LStr("c7"), LStr("c8"), LStr("c9"), LInt("10")>>)}
 
 CollSpell == {<<"list", "builtin">>, <<"list", "typing">>, <<"list", "Sequence">>, <<"list", "abcSequence">>,
               <<"list", "MutableSequence">>, <<"list", "Collection">>, <<"list", "Iterable">>, <<"list", "abcIterable">>,
